@@ -80,6 +80,29 @@ def SamplerEval.evaluate {Circ Par} (e : SamplerEval Circ Par) (P : Prim (Circ Ã
   let pubs := (circuits.map e.prep).zip params
   (P pubs).map (fun c => QVerif.Cvar.getExpectation (quasi e.f e.shots c) e.alpha)
 
+/-! ### Pubs that carry their shot count
+
+`measure_quasi_distributions` submits `(circuit, parameter_values, shots)` and divides the returned counts by the SAME
+`shots`; the wrappers hand the pubs on as `SamplerPub`s, each with its own shot count (a batch may mix pubs of evaluators
+with different shot counts). -/
+
+abbrev SPub (Circ Par : Type) := Circ Ã— Par Ã— Nat
+
+def countsTotal (c : Counts) : Nat := (c.map (Â·.2)).sum
+
+/-- `OperatorSamplerCircuitEvaluator.evaluate_circuits` / `BitstringCircuitEvaluator.evaluate_circuits` with the shot count in
+the pub -/
+def SamplerEval.evaluateS {Circ Par} (e : SamplerEval Circ Par) (P : Prim (SPub Circ Par) Counts)
+    (circuits : List Circ) (params : List Par) : List Rat :=
+  let pubs := ((circuits.map e.prep).zip params).map (fun cp => (cp.1, cp.2, e.shots))
+  (P pubs).map (fun c => QVerif.Cvar.getExpectation (quasi e.f e.shots c) e.alpha)
+
+/-- `TranspilingSamplerV2.run` on one coerced pub: the circuit is transpiled, parameter values and shots are kept -/
+def transpileSPub {Circ Par} (pm : Circ â†’ Circ) (p : SPub Circ Par) : SPub Circ Par := (pm p.1, p.2.1, p.2.2)
+
+/-- a (defective) hand-over that submits a whole batch with one shot count -/
+def overrideShots {Circ Par} (s : Nat) (p : SPub Circ Par) : SPub Circ Par := (p.1, p.2.1, s)
+
 /-! ## Estimator-based evaluator -/
 
 structure EstimatorEval (Circ Obs : Type) where
